@@ -169,7 +169,7 @@ func (s *Scratch) installHarness(pkgs ...string) {
 func (s *Scratch) build(out string, pkg string) string {
 	bin := filepath.Join(s.Dir, "bin", out)
 	os.MkdirAll(filepath.Dir(bin), 0o755)
-	o, err := run(s.Gleece, nil, "go", "build", "-o", bin, pkg)
+	o, err := run(s.Gleece, nil, "go", "build", "-trimpath", "-o", bin, pkg)
 	if err != nil {
 		harnessFail("build of %s from the working tree failed: %v\n%s", pkg, err, o)
 	}
